@@ -51,12 +51,18 @@ func HarnessC15_Concurrent() {
 	}
 	done := make(chan c15Result, 8)
 	// data writer
+	// the data writer may work under a write deadline of its own; it closes its message writer
+	// whatever Write returned (the usual deferred Close)
+	dataDL := !withClose && !direct && vChoice(2) == 1
 	go func() {
+		if dataDL {
+			c.SetWriteDeadline(time.Now().Add(2 * time.Millisecond))
+		}
 		w, err := c.NextWriter(BinaryMessage)
 		if err == nil {
 			_, err = w.Write(data)
-			if err == nil {
-				err = w.Close()
+			if cerr := w.Close(); err == nil {
+				err = cerr
 			}
 		}
 		done <- c15Result{"data", err}
@@ -136,6 +142,14 @@ func HarnessC15_Concurrent() {
 			}
 			vAssert(withClose && r.err == ErrCloseSent, "a write fails only because a close was sent, with the close-sent error")
 		}
+	}
+	if finished {
+		// whatever the writer was told: a message that is complete on the wire is the message written
+		same := len(got) == len(data)
+		if same {
+			same = vEqBytes(got, data)
+		}
+		vAssert(same, "a data message that is complete on the wire is intact")
 	}
 	if dataErr == nil {
 		vAssert(started && finished, "a data message reported as written is complete on the wire")
